@@ -25,6 +25,8 @@ EXPECTED = [
     ('savePopped', 'List String', lean_list(['_environment', '_django'])),
     ('saveOpenMode', 'String', '"w"'),
     ('serializerVersion', 'Int', '1'),
+    ('defaultProjectSteps', 'List String', lean_list(['try-load', 'except(FileNotFoundError,IsADirectoryError,PermissionError):pass', 'except(NotADirectoryError):continue', 'if first_no_init_file is None', 'if __init__.py exists:continue', 'elif not is_file:first_no_init_file=dir', 'if django:return', 'if probable_path is None and potential:probable_path=dir', 'after:probable', 'after:first_no_init_file', 'after:curdir'])),
+    ('potentialProjectFiles', 'List String', lean_list(['setup.py', '.git', '.hg', 'requirements.txt', 'MANIFEST.in', 'pyproject.toml'])),
     ('defaultAddParentPaths', 'Bool', 'true'),
     ('defaultAddInitPaths', 'Bool', 'false'),
     ('composeOrder', 'List String', lean_list(['prefixed', 'sys_path', 'suffixed'])),
@@ -52,6 +54,78 @@ def generate(repo, g):
         raise
     finally:
         g.define = orig_define
+
+
+def _default_project(src, g):
+    """get_default_project: the loop over the directory and its parents, statement by statement"""
+    fn = src.find('get_default_project')
+    loops = [n for n in fn.body if isinstance(n, ast.For)]
+    if len(loops) != 1 or u(loops[0].iter) != 'chain([check], check.parents)' or u(loops[0].target) != 'dir':
+        raise TieBroken('project.py: get_default_project does not loop over chain([check], check.parents)')
+    if 'check = path.absolute()' not in [u(x) for x in fn.body]:
+        raise TieBroken('project.py: get_default_project no longer makes the start path absolute')
+    steps = []
+    body = loops[0].body
+    if len(body) != 4 or not isinstance(body[0], ast.Try):
+        raise TieBroken('project.py: get_default_project loop body has %d statements, 4 modelled' % len(body),
+                        repr([u(x)[:60] for x in body]))
+    t = body[0]
+    if [u(x) for x in t.body] != ['return Project.load(dir)'] or t.orelse or t.finalbody:
+        raise TieBroken('project.py: get_default_project try body', u(t))
+    steps.append('try-load')
+    for h in t.handlers:
+        names = except_names_(h)
+        act = [u(x) for x in h.body]
+        if act not in (['pass'], ['continue']):
+            raise TieBroken('project.py: get_default_project except handler body', repr(act))
+        steps.append('except(%s):%s' % (','.join(names), act[0]))
+    i = body[1]
+    if not (isinstance(i, ast.If) and u(i.test) == 'first_no_init_file is None' and not i.orelse and len(i.body) == 1
+            and isinstance(i.body[0], ast.If)):
+        raise TieBroken('project.py: get_default_project first_no_init_file block', u(i))
+    steps.append('if first_no_init_file is None')
+    j = i.body[0]
+    if u(j.test) == "dir.joinpath('__init__.py').exists()" and [u(x) for x in j.body] == ['continue'] \
+            and len(j.orelse) == 1 and isinstance(j.orelse[0], ast.If) and u(j.orelse[0].test) == 'not dir.is_file()' \
+            and [u(x) for x in j.orelse[0].body] == ['first_no_init_file = dir'] and not j.orelse[0].orelse:
+        steps += ['if __init__.py exists:continue', 'elif not is_file:first_no_init_file=dir']
+    else:
+        raise TieBroken('project.py: get_default_project __init__.py test', u(j))
+    k = body[2]
+    if isinstance(k, ast.If) and u(k.test) == '_is_django_path(dir)' and not k.orelse \
+            and [u(x) for x in k.body] == ['project = Project(dir)', 'project._django = True', 'return project']:
+        steps.append('if django:return')
+    else:
+        raise TieBroken('project.py: get_default_project django block', u(k))
+    m = body[3]
+    if isinstance(m, ast.If) and u(m.test) == 'probable_path is None and _is_potential_project(dir)' and not m.orelse \
+            and [u(x) for x in m.body] == ['probable_path = dir']:
+        steps.append('if probable_path is None and potential:probable_path=dir')
+    else:
+        raise TieBroken('project.py: get_default_project probable_path block', u(m))
+    after = [u(x) for x in fn.body[fn.body.index(loops[0]) + 1:]]
+    want_after = ['if probable_path is not None:\n    return Project(probable_path)',
+                  'if first_no_init_file is not None:\n    return Project(first_no_init_file)',
+                  'curdir = path if path.is_dir() else path.parent', 'return Project(curdir)']
+    if after != want_after:
+        raise TieBroken('project.py: get_default_project statements behind the loop', repr(after))
+    steps += ['after:probable', 'after:first_no_init_file', 'after:curdir']
+    g.define('defaultProjectSteps', 'List String', lean_list(steps),
+             'jedi/api/project.py:get_default_project, statement by statement')
+    files = src.const('_CONTAINS_POTENTIAL_PROJECT')
+    g.define('potentialProjectFiles', 'List String', lean_list(list(files)),
+             'jedi/api/project.py:_CONTAINS_POTENTIAL_PROJECT')
+    g.fp(src, 'get_default_project')
+    g.fp(src, '_is_potential_project')
+    g.fp(src, '_is_django_path')
+
+
+def except_names_(handler):
+    t = handler.type
+    if t is None:
+        return ['BaseException']
+    elts = t.elts if isinstance(t, ast.Tuple) else [t]
+    return [u(e) for e in elts]
 
 
 def _generate(repo, g):
@@ -146,6 +220,7 @@ def _generate(repo, g):
         raise TieBroken('project.py: Project.save has %d statements, model knows 7' % len(stmts), repr(stmts))
     version = src.const('_SERIALIZER_VERSION')
     g.define('serializerVersion', 'Int', str(int(version)), 'jedi/api/project.py:_SERIALIZER_VERSION')
+    _default_project(src, g)
     # ---- load
     ltext = u(load)
     for needle in ('version, data = json.load(f)', 'if version == 1:\n    return cls(**data)', 'raise WrongVersion('):
